@@ -275,15 +275,20 @@ class World(BaseWorld):
                 'converged_anderson', 'converged_broyden1', 'converged_df-sane']
 
     def rule(self):
-        return ('Each run = one seed -> system record (1-3 types; N in 16..256 incl. non powers of two; dr- or dk-constructed domain; '
-                'eta 0.005..0.45; diameters on/off grid; kT; per pair closure in {PY,HNC,(+hc flag),MSA(hc),MS(hc)} x potential in '
-                '{HS,HCLJ,Exponential,LJ(cut,shift),WCA} x omega in {SingleSite,NoIntra,InterMolecular,Gaussian,GaussianRing,FJC,FromArray}) '
-                '+ solver plan (real | buggify{extra_eval_after_root, buffer_reuse, early_stop} | scripted Picard/Anderson returning best-so-far) '
-                '+ 1-2 solves via PRISM.solve or System.solve with user method/options drawn from 9-11 scipy methods and guess in '
-                '{zeros, noise, previous solution}. Judged only when res.success and res.fun finite. Oracle: omega = rho_site o omega_spec(k_ref); '
-                'H = Omega C (Omega+H) at every k (factor-magnitude / condition-number scaled); per pair |c - closure(h-c)| <= sup|dc/dgamma| * '
-                '|reported F|/r + 1e-8*scale. Non-trivial: converged and not the (PY, HardSphere, SingleSite/NoIntra) textbook system. '
-                'Distinct: run digests (event log + raw bytes of the solved totalCorr).')
+        return ('Each run = one seed -> system record (1-3 types; N in 16..256 incl. non powers of two; Domain constructed from dr or dk, in 25% '
+                'of runs built with another length/spacing and brought to its final form with the in-place setters; eta 0.005..0.45; diameters '
+                'on/off grid; kT; per pair closure in {PY,HNC,(+hc flag),MSA(hc),MS(hc)} x potential in {HS,HCLJ,Exponential,LJ(cut,shift),WCA}, '
+                '20% of flagged pairs with a potential that carries its own sigma (x0.8/0.9/1.1) x omega in {SingleSite,NoIntra,InterMolecular,'
+                'Gaussian,GaussianRing,FJC,FromArray}; tables filled pair by pair or by one list x list statement plus overrides) '
+                '+ solver plan (real | buggify{extra_eval_after_root, buffer_reuse, return_work_buffer, early_stop} | scripted Picard/Anderson '
+                'returning best-so-far) + 1-2 solves via PRISM.solve (new object or the same object again) or System.solve with user '
+                'method/options drawn from 9-11 scipy methods and guess in {zeros, noise, previous solution}; between two solves optionally '
+                're-grid (new System, same length, dr x0.5|x2) or edit diameter|density|kT on the same System. Judged only when res.success '
+                'and res.fun finite. Oracle: omega = rho_site o omega_spec(k_ref); H = Omega C (Omega+H) at every k (factor-magnitude / '
+                'condition-number scaled); per pair |c - closure(h-c)| <= sup|dc/dgamma| * |reported F|/r + 1e-8*scale with closure and potential '
+                'written from their definitions (simkit/physics.py) and scale = magnitude bound of the transform sum. Non-trivial: converged '
+                'and not the (PY, HardSphere, SingleSite/NoIntra) textbook system. Distinct: run digests (event log + raw bytes of the solved '
+                'totalCorr).')
 
     def abstract_measure(self):
         return '(rank, solver mode, fault kinds, user method, guess kind, entry point, last callback at root?)'
@@ -297,8 +302,9 @@ class World(BaseWorld):
     def assumptions(self):
         return ['converged := res.success and res.fun, res.x finite (the statement\'s antecedent), not "residual small"',
                 'NFJC and DiscreteKoyama omitted: cannot be evaluated with the pinned numpy/scipy',
-                'explicit potential sigma equal to the diameter-derived sigma or absent',
+                'a potential sigma different from the contact distance only together with a flagged closure (whose core is the contact distance)',
                 'MSA/MS only with the hard-core flag (documented not to work on divergent potentials without it)',
-                'reference potentials/closures/omegas are the repository classes freshly constructed from the record (C09-C11 not claimed)',
+                'closures and potentials of the oracle are written from their documented definitions (simkit/physics.py); omega(k) models '
+                'are the repository classes freshly constructed from the record (C11 not claimed)',
                 'wavenumbers with cond(I - Omega C) > 1e8 are counted (ill_conditioned_k), not judged',
                 'CPython without -O; default numpy errstate']
